@@ -50,7 +50,7 @@ Section Show.
     forall n m, listed (apply_list s es) n m -> P m.
   Proof.
     induction es as [|e es IH]; intros s H Hw; [exact H|]. rewrite apply_list_cons. apply IH; [|intros n m Hi; apply (Hw n m); right; exact Hi].
-    intros n m Hl. unfold listed in Hl. destruct e as [d|d|h c|h c|h|n'|n' ms|n'|h c|h]; cbn in Hl; try (apply (H n m Hl)).
+    intros n m Hl. unfold listed in Hl. destruct e as [d|d|h c|h c|h|n'|n' ms|n'|h c|h|h i st|h i]; cbn in Hl; try (apply (H n m Hl)).
     - apply (In_aset name_eqb name_eqb_spec) in Hl as [[_ [=]]|[_ Hl]]. apply (H n m Hl).
     - apply (In_aset name_eqb name_eqb_spec) in Hl as [[-> <-]|[_ Hl]]; [apply (Hw n' m); left; reflexivity | apply (H n m Hl)].
     - apply (In_adel name_eqb name_eqb_spec) in Hl as [Hl _]. apply (H n m Hl).
